@@ -130,7 +130,7 @@ class FXForward:
             v = v * self.notional * dom_df
         elif self.notional_currency == self.dom_name:
             v = newfwd_fx_rate - self.strike_fx_rate
-            v = v * self.notional * dom_df * newfwd_fx_rate
+            v = v * self.notional_for * dom_df
 
         self.cash_dom = v * self.notional_dom / self.strike_fx_rate
         self.cash_for = v * self.notional_for / spot_fx_rate
